@@ -323,13 +323,28 @@ def guided_templates():
     ]
 
 
+def guided_templates_c03():
+    q = [{"op": "mintquote", "amt": 8}, {"op": "settle", "q": "mq1"}]
+    m = lambda qq, outs: {"op": "mint", "q": qq, "outs": [{"amt": a} for a in outs]}
+    fund13 = [{"op": "mintquote", "amt": 13}, {"op": "settle", "q": "mq1"}, {"op": "mint", "q": "mq1", "outs": [{"amt": 8}, {"amt": 4}, {"amt": 1}]}]
+    own = fund13 + [{"op": "mintquote", "amt": 8}, {"op": "meltquote", "kind": "int", "q": "mq2"}, {"op": "settle", "q": "mq2"}]
+    post = PROBE + [{"op": "pollmint", "q": "mq1"}, m("mq1", [1, 1, 2, 4])]
+    post2 = PROBE + [{"op": "pollmint", "q": "mq2"}, m("mq2", [1, 1, 2, 4]), m("mq2", [1, 2, 1, 4])]
+    return [
+        scenario("G/mint-mint-mint-pollmint", "C03", q, [m("mq1", [8]), m("mq1", [4, 4]), m("mq1", [2, 2, 4]), {"op": "pollmint", "q": "mq1"}], post=post),
+        scenario("G/mint-mint-pollmint-notify", "C03", q, [m("mq1", [8]), m("mq1", [4, 4]), {"op": "pollmint", "q": "mq1"}, {"op": "notify", "q": "mq1"}], post=post),
+        scenario("G/mint-meltinternal-mint-pollmint", "C03", own,
+                 [m("mq2", [8]), {"op": "melt", "q": "lq1", "ins": [{"p": "b1"}]}, m("mq2", [4, 4]), {"op": "pollmint", "q": "mq2"}], post=post2),
+    ]
+
+
 def guided_check(prop, num=None):
     """Behaviours of MintSteps (TLC -simulate) replayed on the real mint as fixed schedules with the behaviour's Lightning answers
     scripted; every execution validated by MintAccept, its call sequence by MintStepsTrace."""
     import steps
-    num = num or (25 if tier() == "quick" else 400)
+    num = num or ((8 if tier() == "quick" else 150) if prop == "C03" else (25 if tier() == "quick" else 400))
     sd0 = spec_copy(rundir("%s_guidedgen_%s" % (prop, tier())))
-    scns, stats = steps.guided_scenarios(sd0, guided_templates(), num, seed())
+    scns, stats = steps.guided_scenarios(sd0, guided_templates_c03() if prop == "C03" else guided_templates(), num, seed())
     cov, nviol, dt = check(prop, scns, sub="_guided", design=False)
     cov["generated_from_model"] = stats
     cov.pop("samples", None)
